@@ -107,6 +107,10 @@ def _matches(entry, prop, cid, clause, config, inputs=None):
         return False
     if m.get('clause_prefix') and not clause.startswith(m['clause_prefix']):
         return False
+    if m.get('clause_regex'):
+        import re
+        if not re.search(m['clause_regex'], clause):
+            return False
     for k, v in m.get('config', {}).items():
         if config.get(k) != v:
             return False
